@@ -1,8 +1,9 @@
 ----------------------------- MODULE Trace_Audit -----------------------------
-EXTENDS AuditContract
+EXTENDS AuditContract, Json, IOUtils
 VARIABLES l, ok
 EvOK(e) == IF e.ev = "call" THEN CallOK(e) ELSE IF e.ev = "exit" THEN ExitOK(e) ELSE TRUE
-T == INSTANCE TraceStateless WITH EventOK <- EvOK
+TraceData == ndJsonDeserialize(IOEnv.TRACE)
+T == INSTANCE TraceStateless WITH EventOK <- EvOK, Trace <- TraceData
 Spec == T!TSSpec
 Accepted == T!TSAccepted
 =============================================================================
